@@ -664,6 +664,54 @@ func (s *Sched) Blocked() []string {
 	return res
 }
 
+// KeyID, when set by the harness, names keys that have no natural order (pointers) by something stable across
+// executions, e.g. the request id of a *http.Request.
+var KeyID func(k any) (string, bool)
+
+// Permuted iterates a map whose keys cannot be sorted (instrumenter rewrite 5b). Go's iteration order over such a
+// map is random; the search owns it instead: the keys are ordered by KeyID and that order is rotated by a choice
+// point (alternatives cost one deviation each), so that order-dependent behaviour is explored and replayable.
+// Keys KeyID cannot name keep Go's order.
+func Permuted[M ~map[K]V, K comparable, V any](m M) iter.Seq2[K, V] {
+	return func(yield func(K, V) bool) {
+		keys := make([]K, 0, len(m))
+		for k := range m {
+			keys = append(keys, k)
+		}
+		if len(keys) >= 2 && KeyID != nil {
+			ids := make(map[K]string, len(keys))
+			named := true
+			for _, k := range keys {
+				id, ok := KeyID(k)
+				if !ok {
+					named = false
+					break
+				}
+				ids[k] = id
+			}
+			if named {
+				slices.SortStableFunc(keys, func(a, b K) int { return cmp.Compare(ids[a], ids[b]) })
+				n := len(keys)
+				if n > 3 {
+					n = 3
+				}
+				if c := Choose(n); c > 0 {
+					keys = append(append([]K{}, keys[c:]...), keys[:c]...)
+				}
+			}
+		}
+		for _, k := range keys {
+			v, ok := m[k]
+			if !ok {
+				continue
+			}
+			if !yield(k, v) {
+				return
+			}
+		}
+	}
+}
+
 // Sorted iterates a map in ascending key order (instrumenter rewrite 5).
 func Sorted[M ~map[K]V, K cmp.Ordered, V any](m M) iter.Seq2[K, V] {
 	return func(yield func(K, V) bool) {
